@@ -66,6 +66,10 @@ for _src, _dsts in CAST_PAIRS.items():
         op("batch_cast_to_%s" % _d, "xsimd::batch_cast<%s>(a)" % TYPES[_d][0], "B", [t for t in CAST_PAIRS if _d in CAST_PAIRS[t]], "R:" + _d)
         op("bitwise_cast_to_%s" % _d, "xsimd::bitwise_cast<%s>(a)" % TYPES[_d][0], "B", [t for t in CAST_PAIRS if _d in CAST_PAIRS[t]], "R:" + _d)
         op("bool_cast_to_%s" % _d, "xsimd::batch_bool_cast<%s>(m)" % TYPES[_d][0], "M", [t for t in CAST_PAIRS if _d in CAST_PAIRS[t]], "RM:" + _d)
+# converting loads / stores (load_as / store_as): memory of element type SRC, batch of T
+for _src in ("i32", "f32", "i64", "f64", "u8", "i16"):
+    op("load_as_from_%s" % _src, "xsimd::load_as<T, A>((%s const*)(void const*)p, xsimd::unaligned_mode())" % TYPES[_src][0], "p", [t for t in ALL_TYPES if t != _src])
+    op("store_as_to_%s" % _src, "(xsimd::store_as((%s*)(void*)q, a, xsimd::unaligned_mode()), a)" % TYPES[_src][0], "Bq", [t for t in ALL_TYPES if t != _src])
 op("to_int", "xsimd::to_int(a)", "B", FLOAT_TYPES, "R:int")
 op("to_float", "xsimd::to_float(a)", "B", ["i32", "i64"], "R:float")
 op("nearbyint_as_int", "xsimd::nearbyint_as_int(a)", "B", FLOAT_TYPES, "R:int")
